@@ -118,7 +118,7 @@ UNIT['functions']['BuildEngineImpl::executeTasks#wait'] = {
     'ensures': [
         # with computing tasks outstanding and nothing else done, the loop goes round again after blocking (or after finding
         # completions already queued): a task that is still computing is never mistaken for a dependency cycle
-        ('P:C06,P:C05', '(!(OLD(*didWork) != 0) && OLD(self->numOutstandingUnfinishedTasks) != 0) ==> (*didWork != 0)'),
+        ('P:C06,P:C05,P:C07', '(!(OLD(*didWork) != 0) && OLD(self->numOutstandingUnfinishedTasks) != 0) ==> (*didWork != 0)'),
         # it blocks only when nothing was done in this round and a completion is still owed (otherwise nobody would wake it)
         ('P:C06', '(g_waits != 0) ==> (!(OLD(*didWork) != 0) && OLD(self->numOutstandingUnfinishedTasks) != 0 && g_waits == 1)'),
         # a completion that is already queued is never slept on
